@@ -25,7 +25,7 @@ def make_cfg(rs, tier):
     cfg = _unbuf.base_cfg(rs, ID)
     cfg["nobj"] = rs.choice([2, 2, 3])
     cfg["p_outside"] = 0.0
-    cfg["oracles"] = ["backend", "result"]
+    cfg["oracles"] = ["backend", "result", "children"]
     return cfg
 
 
@@ -33,6 +33,25 @@ setup = _unbuf.setup
 
 
 def gen_step(w, rg):
+    if rg.random() < 0.08:
+        # a REJECTED operation (forbidden key/value; forms that apply nothing before failing): afterwards the handle
+        # must still behave like every other handle
+        from ..engines import seqgen as G
+        hs = G.attached_handles(w)
+        if hs:
+            h = G.pick(rg, hs)
+            w.probe("rejected_op")
+            badkey = {"$keydict": [[987654, 1]]}
+            if w.cfg["family"] == "Zarr":
+                # Zarr forbids only non-string keys (values depend on the codec)
+                name, args = G.pick(rg, [("reset", [badkey]), ("update", [badkey])] if h.kind == "dict" else [("append", [badkey]), ("insert", [0, badkey])])
+            elif h.kind == "dict":
+                name, args = G.pick(rg, [("setitem", ["bad", {"$obj": "object"}]), ("reset", [{"$keydict": [[987654, 1]]}]),
+                                         ("update", [{"$keydict": [[987654, 1]]}]), ("setdefault", [w.fresh.key(), {"$obj": "set"}])])
+            else:
+                name, args = G.pick(rg, [("append", [{"$obj": "object"}]), ("insert", [0, {"$obj": "complex"}]),
+                                         ("extend", [[{"$obj": "object"}]]), ("iadd", [[{"$obj": "set"}]])])
+            return {"t": "op", "hid": h.hid, "name": name, "args": args, "rejected": True}
     return _unbuf.gen_step(w, rg)
 
 
